@@ -29,7 +29,7 @@ claims = {
          "Assumed: fmt.Sprintf %s semantics for the two String() methods (trusted contracts); MarshalJSON emits one member per element of order (loop shape read, byte-level JSON is encoding/json's). UTF-8/JSON well-formedness and compact == indented are not claimed.",
          "contract-based deductive verification + SMT string lemmas", "DESIGN.md 4.C09"),
  "C11": ("proof",
-         "Partial claim: local rejection contracts, each of the shape 'condition on the pre-state implies an error and every heap location unchanged': duplicate tag / server / macro / user enum / user type, second JSIGHT / INFO / Title / Version / Description-of-info, macro without name or without body, PASTE of an undefined macro; every successful PASTE collects the ENUM rules of the pasted macro again (ghost call counter), so an enum declared twice through PASTE reaches the duplicate check; the same HTTP method on the same path / the same JSON-RPC method twice (AddHTTPMethod, AddJsonRpcMethod), a second Body under one response (AddResponseBody, defect F18 repaired), a PASTE without Name inside a macro body (findPaste); the same URL path twice (addURL: registered path => error, accepted URL registers its path, table insert-only) and two paths that differ only in a parameter name (checkSimilarPaths against the prefix table); a second Query, request Headers or response Headers; BaseUrl for an unknown server or a second BaseUrl; an allOf base that is undefined or not an object.",
+         "Partial claim: local rejection contracts, each of the shape 'condition on the pre-state implies an error and every heap location unchanged': duplicate tag / server / macro / user enum / user type, second JSIGHT / INFO / Title / Version / Description-of-info, macro without name or without body, PASTE of an undefined macro; every successful PASTE collects the ENUM rules of the pasted macro again (ghost call counter), so an enum declared twice through PASTE reaches the duplicate check; the same HTTP method on the same path / the same JSON-RPC method twice (AddHTTPMethod, AddJsonRpcMethod), a second Body under one response (AddResponseBody, defect F18 repaired), a PASTE without Name inside a macro body (findPaste); the same URL path twice (addURL: registered path => error, accepted URL registers its path, table insert-only) and two paths that differ only in a parameter name (checkSimilarPaths against the prefix table); a second Query, request Headers, response Headers, Protocol, JSON-RPC Params or Result; BaseUrl for an unknown server or a second BaseUrl; an allOf base that is undefined or not an object.",
          "The remaining adders of setters.go / build_catalog_directives.go (interactions, types, enums, paths) are not yet under contract; 'one injected fault always causes rejection' end-to-end is not claimed.",
          "contract-based deductive verification: conditional frame postconditions (unchanged())", "DESIGN.md 4.C11"),
  "C07": ("proof",
